@@ -393,9 +393,74 @@ def shape_cables(rng, sibs, unique_names):
     return sibs
 
 
+HIST_SPECIAL = "./$:+ -"
+
+
+def _hist_name(rng, used):
+    """a name whose identifier has capitals and needs a rename (`Stage.0` -> `Stage_0`)"""
+    while True:
+        body = "".join(rng.choice("abqxz") for _ in range(rng.randint(1, 4)))
+        nm = body.capitalize() + rng.choice(HIST_SPECIAL) + rng.choice(["0", "1", "lo", "Hi", "In", "x"])
+        if rng.random() < 0.3:
+            nm = nm.upper() if rng.random() < 0.5 else _swapcase_some(rng, nm)
+        idt = _sanitised(nm)
+        if fold(idt) not in used and illegal_kind(idt) is None and idt != idt.lower():
+            used.add(fold(idt))
+            return {"name": nm, "ident": idt, "rename": idt != nm}
+
+
+def _collider(rng, nm):
+    """another name that sanitises to the same identifier in another case"""
+    out = []
+    for c in nm:
+        if c.isalpha():
+            out.append(c.swapcase())
+        elif c in HIST_SPECIAL:
+            out.append(rng.choice([x for x in HIST_SPECIAL if x != c]))
+        else:
+            out.append(c)
+    return "".join(out)
+
+
+def gen_history(rng):
+    """read -> edit -> compose -> read: a netlist whose elements carry mixed-case identifiers is written
+    and read back (so it lives under the EDIF naming policy), then in some scopes an element is removed
+    (or given another identifier) and a sibling is added whose name sanitises to the removed identifier
+    in another case; the export must succeed and give the new sibling a correct identifier."""
+    inp = {"level": "history", "policy": "DEFAULT", "netlist_name": "n", "top_name": "t"}
+    for sc in SCOPES:
+        used = set()
+        k = rng.randint(2, 4)
+        inp[sc] = [_hist_name(rng, used) for _ in range(k)]
+    inp["cable_w"] = [1] * len(inp["cables"])
+    for sb in inp["cables"]:
+        sb["w"] = 1
+    inp["port_w"] = [1] * len(inp["ports"])
+    edits = []
+    for sc in rng.sample(SCOPES, rng.randint(1, 3)):
+        lo, hi = 0, len(inp[sc])
+        if sc == "libraries":
+            lo = 1                       # library 0 holds the design
+        if sc == "definitions":
+            lo, hi = 1, len(inp[sc]) - 1  # first = leaf, last = top
+        if hi <= lo:
+            continue
+        i = rng.randrange(lo, hi)
+        op = rng.choice(["replace", "replace", "reident"])
+        e = {"scope": sc, "op": op, "index": i, "add": _collider(rng, inp[sc][i]["name"])}
+        if op == "reident":
+            e["ident"] = "moved_" + str(rng.randint(0, 9))
+        edits.append(e)
+    inp["edits"] = edits
+    return inp
+
+
 def gen_input(rng, tier, level=None):
     if level is None:
-        level = "free" if rng.random() < 0.6 else "netlist"
+        r0 = rng.random()
+        level = "free" if r0 < 0.58 else ("netlist" if r0 < 0.94 else "history")
+    if level == "history":
+        return gen_history(rng)
     quote_p = 0.0015
     if level == "free":
         n = rng.choice([1, 2, 2, 3, 3, 4, 5, 6, 8, 12]) if rng.random() < 0.93 else rng.randint(13, 40)
@@ -1120,6 +1185,154 @@ class Runner:
                     cur = c
         return cur
 
+    def run_history(self, inp, report=True):
+        """read -> edit -> compose -> read on a reader-produced netlist (EDIF naming policy).  A compose
+        that raises is a failure of the property ("export always yields a re-readable file")."""
+        import spydrnet as sdn
+        sigs = set()
+        d = tempfile.mkdtemp(dir=self.tmpdir)
+        try:
+            try:
+                nl, home, top, pre = build_netlist(inp)
+                f1 = os.path.join(d, "a.edf")
+                sdn.compose(nl, f1)
+                n2 = sdn.parse(f1)
+            except Exception as e:
+                # the first export of well-formed mixed-case identifiers is the netlist-level stream's business
+                self.res.dist("history.setup-failed." + exc_family(e))
+                return sigs
+            finally:
+                _set_policy("DEFAULT")
+            top2 = n2.top_instance.reference
+            home2 = top2.library
+            leaf2 = [x for x in home2.definitions if x is not top2][0]
+
+            def lst(sc):
+                return {"libraries": n2.libraries, "definitions": home2.definitions, "ports": top2.ports,
+                        "cables": top2.cables, "instances": top2.children}[sc]
+
+            def by_name(sc, nm):
+                for x in lst(sc):
+                    if x.name == nm:
+                        return x
+                return None
+            try:
+                for e in inp["edits"]:
+                    sc = e["scope"]
+                    old = by_name(sc, inp[sc][e["index"]]["name"])
+                    if old is None:
+                        continue
+                    if e["op"] == "replace":
+                        if sc == "instances":
+                            for pin in list(old.pins.values()) if isinstance(old.pins, dict) else list(old.pins):
+                                if pin.wire is not None:
+                                    pin.wire.disconnect_pin(pin)
+                            top2.remove_child(old)
+                        elif sc == "cables":
+                            for w in old.wires:
+                                w.disconnect_pins_from(list(w.pins))
+                            top2.remove_cable(old)
+                        elif sc == "ports":
+                            for pin in old.pins:
+                                if pin.wire is not None:
+                                    pin.wire.disconnect_pin(pin)
+                            top2.remove_port(old)
+                        elif sc == "definitions":
+                            home2.remove_definition(old)
+                        else:
+                            n2.remove_library(old)
+                    else:
+                        old["EDIF.identifier"] = e["ident"]
+                    if sc == "instances":
+                        top2.create_child(name=e["add"], reference=leaf2)
+                    elif sc == "cables":
+                        top2.create_cable(name=e["add"]).create_wire()
+                    elif sc == "ports":
+                        q = top2.create_port(name=e["add"])
+                        q.direction = sdn.IN
+                        q.create_pin()
+                    elif sc == "definitions":
+                        home2.create_definition(name=e["add"])
+                    else:
+                        n2.create_library(name=e["add"])
+            except Exception as e:
+                # an edit the IR / the EDIF namespace refuses is C10/C14's business, not an export
+                self.res.dist("history.edit-refused." + exc_family(e))
+                return sigs
+            # state before the export, per scope
+            before = {}
+            for sc in SCOPES:
+                before[sc] = [(x, {"name": x.name, "ident": x.data.get("EDIF.identifier"), "rename": bool(x.data.get("EDIF.rename", False)), "w": 1})
+                              for x in lst(sc)]
+            f2 = os.path.join(d, "b.edf")
+            try:
+                sdn.compose(n2, f2)
+            except Exception as e:
+                sig = "history.compose-raised-" + exc_family(e)
+                if report:
+                    self.res.dist("P.fail." + sig)
+                    if self.first(sig):
+                        self.res.spec_failure(sig, self.shrink_history(inp, sig), "export after read/remove/add raised " + repr(e)[:160])
+                return {sig}
+            finally:
+                _set_policy("DEFAULT")
+            with open(f2) as fh:
+                nets = scan_net_identifiers(fh.read())
+            p_fail = False
+            for sc in SCOPES:
+                objs = list(lst(sc))                      # post-compose order
+                state = {id(x): st for x, st in before[sc]}
+                ps = [state[id(x)] for x in objs]
+                s = self.check_scope(inp, sc, ps, _observe(objs, ps), report, nets=nets if sc == "cables" else None)
+                for sig in sorted(x for x in s if x != "corr"):
+                    p_fail = True
+                    if report:
+                        self.res.dist("P.fail." + sig)
+                        if self.first(sig):
+                            f = [x for x in self._last_fails if x[0] == sig]
+                            self.res.spec_failure(sig, inp, "history, scope %s: %s" % (sc, f[0][2] if f else ""))
+                sigs |= s
+            if p_fail:
+                return sigs
+            try:
+                n3 = sdn.parse(f2)
+                t3 = n3.top_instance.reference
+                got = {"libraries": [x.name for x in n3.libraries], "definitions": [x.name for x in t3.library.definitions],
+                       "ports": [x.name for x in t3.ports], "cables": [x.name for x in t3.cables], "instances": [x.name for x in t3.children]}
+                for sc in SCOPES:
+                    want = sorted(st["name"] for _, st in before[sc])
+                    if want != sorted(got[sc]):
+                        sig = "history.reparse-names-differ." + sc
+                        sigs.add(sig)
+                        if report and self.first(sig):
+                            self.res.spec_failure(sig, inp, "written %r re-read %r" % (want[:6], sorted(got[sc])[:6]))
+                        break
+                else:
+                    self.res.dist("history.ok")
+            except Exception as e:
+                sig = "history.reparse-raised-" + exc_family(e)
+                sigs.add(sig)
+                if report and self.first(sig):
+                    self.res.spec_failure(sig, inp, repr(e)[:200])
+            finally:
+                _set_policy("DEFAULT")
+            return sigs
+        finally:
+            shutil.rmtree(d, ignore_errors=True)
+
+    def shrink_history(self, inp, sig):
+        cur = json.loads(json.dumps(inp))
+        # one edit at a time, then fewer bystanders
+        for e in list(cur["edits"]):
+            c = dict(cur, edits=[e])
+            try:
+                if sig in self.run_history(c, report=False):
+                    cur = c
+                    break
+            except Exception:
+                pass
+        return cur
+
     def run_chain(self, inp, report=True):
         """`n` siblings x, x_sdn_1_, ..., x_sdn_<n-1>_ and one more named X: one round of
         `_conflicts_fix` per sibling (the python recursion limit is not part of the property)."""
@@ -1168,11 +1381,13 @@ class Runner:
             return self.run_netlist(inp, report)
         if inp.get("level") == "chain":
             return self.run_chain(inp, report)
+        if inp.get("level") == "history":
+            return self.run_history(inp, report)
         return self.run_free(inp, report)
 
 
 def nontrivial(inp):
-    if inp.get("level") in ("netlist", "chain"):
+    if inp.get("level") in ("netlist", "chain", "history"):
         return True
     s = inp["sibs"]
     return len(s) >= 2
@@ -1181,6 +1396,11 @@ def nontrivial(inp):
 def tags(res, inp):
     if inp.get("level") == "chain":
         res.dist("level.chain.%d" % inp["n"])
+        return
+    if inp.get("level") == "history":
+        res.dist("level.history")
+        for e in inp["edits"]:
+            res.dist("history.edit.%s.%s" % (e["op"], e["scope"]))
         return
     if inp.get("level") == "netlist":
         res.dist("level.netlist" + (".benign" if inp.get("benign") else ""))
@@ -1295,7 +1515,7 @@ def exhaustive_shard(seed, idx, nsh, tier, deadline):
 
 
 def _short(inp):
-    if inp.get("level") == "chain":
+    if inp.get("level") in ("chain", "history"):
         return inp
 
     def sh(s):
@@ -1369,7 +1589,9 @@ def run(ctx):
                 "generated names in all five scopes + netlist + top instance, sdn.compose to .edf, sdn.parse. "
                 "Cable scopes carry widths 1..4, lower indices and one-wire arrays, with the class `cable x of width w beside scalar cables named <x or its identifier>_<k>_` and case swaps; "
                 "one conflict chain x, x_sdn_1_, ... , X of 1600 siblings (thorough 1000/1600/3000). "
-                "A case is one input; distinct = distinct canonical JSON; non-trivial = netlist level, chain, or >= 2 siblings.")
+                "History level: a netlist with mixed-case identifiers is written and read (EDIF policy), in 1-3 scopes an element is removed or re-identified and a sibling added whose name "
+                "sanitises to that identifier in another case, then composed (raising = failure) and re-read. "
+                "A case is one input; distinct = distinct canonical JSON; non-trivial = netlist / history level, chain, or >= 2 siblings.")
     ctx.assumptions = [
         "names are non-empty printable ASCII (0x20..0x7e); non-ASCII names are probed only by the oracle (no model correspondence)",
         "generated sibling lists have <= 40 elements, plus one conflict chain of 1600 (thorough: 1000/1600/3000) siblings x, x_sdn_1_, ... and X",
